@@ -6,44 +6,44 @@ Open Scope string_scope.
 Definition one (n : string) := filter (fun fd => String.eqb (fn_name fd) n) eon_program.
 Eval vm_compute in (report eon_program (one "Gillespie_simple_contagion")).
 Eval vm_compute in (dead_report eon_program (one "Gillespie_simple_contagion")).
-Eval vm_compute in (report eon_program (one "discrete_SIR")).
-Eval vm_compute in (dead_report eon_program (one "discrete_SIR")).
-Eval vm_compute in (report eon_program (one "_get_NkNl_and_IC_as_arrays_")).
-Eval vm_compute in (dead_report eon_program (one "_get_NkNl_and_IC_as_arrays_")).
+Eval vm_compute in (report eon_program (one "_dSIR_pair_based_")).
+Eval vm_compute in (dead_report eon_program (one "_dSIR_pair_based_")).
+Eval vm_compute in (report eon_program (one "SIR_pair_based")).
+Eval vm_compute in (dead_report eon_program (one "SIR_pair_based")).
 Eval vm_compute in (report eon_program (one "SIR_effective_degree_from_graph")).
 Eval vm_compute in (dead_report eon_program (one "SIR_effective_degree_from_graph")).
-Eval vm_compute in (report eon_program (one "_dSIR_heterogeneous_pairwise_")).
-Eval vm_compute in (dead_report eon_program (one "_dSIR_heterogeneous_pairwise_")).
-Eval vm_compute in (report eon_program (one "EBCM_pref_mix")).
-Eval vm_compute in (dead_report eon_program (one "EBCM_pref_mix")).
-Eval vm_compute in (report eon_program (one "SIR_homogeneous_pairwise_from_graph")).
-Eval vm_compute in (dead_report eon_program (one "SIR_homogeneous_pairwise_from_graph")).
-Eval vm_compute in (report eon_program (one "SIS_compact_pairwise_from_graph")).
-Eval vm_compute in (dead_report eon_program (one "SIS_compact_pairwise_from_graph")).
-Eval vm_compute in (report eon_program (one "SIS_compact_pairwise")).
-Eval vm_compute in (dead_report eon_program (one "SIS_compact_pairwise")).
-Eval vm_compute in (report eon_program (one "_dSIR_individual_based_")).
-Eval vm_compute in (dead_report eon_program (one "_dSIR_individual_based_")).
-Eval vm_compute in (report eon_program (one "_dSIR_compact_effective_degree_")).
-Eval vm_compute in (dead_report eon_program (one "_dSIR_compact_effective_degree_")).
-Eval vm_compute in (report eon_program (one "SIS_heterogeneous_pairwise_from_graph")).
-Eval vm_compute in (dead_report eon_program (one "SIS_heterogeneous_pairwise_from_graph")).
-Eval vm_compute in (report eon_program (one "SIR_individual_based_pure_IC")).
-Eval vm_compute in (dead_report eon_program (one "SIR_individual_based_pure_IC")).
-Eval vm_compute in (report eon_program (one "nonMarkov_directed_percolate_network_with_timing")).
-Eval vm_compute in (dead_report eon_program (one "nonMarkov_directed_percolate_network_with_timing")).
+Eval vm_compute in (report eon_program (one "_process_trans_SIS_nonMarkov_")).
+Eval vm_compute in (dead_report eon_program (one "_process_trans_SIS_nonMarkov_")).
+Eval vm_compute in (report eon_program (one "_dSIS_heterogeneous_pairwise_")).
+Eval vm_compute in (dead_report eon_program (one "_dSIS_heterogeneous_pairwise_")).
+Eval vm_compute in (report eon_program (one "_process_trans_SIS_Markov")).
+Eval vm_compute in (dead_report eon_program (one "_process_trans_SIS_Markov")).
+Eval vm_compute in (report eon_program (one "SIS_effective_degree")).
+Eval vm_compute in (dead_report eon_program (one "SIS_effective_degree")).
+Eval vm_compute in (report eon_program (one "_dSIS_compact_pairwise_")).
+Eval vm_compute in (dead_report eon_program (one "_dSIS_compact_pairwise_")).
+Eval vm_compute in (report eon_program (one "_dSIR_super_compact_pairwise_")).
+Eval vm_compute in (dead_report eon_program (one "_dSIR_super_compact_pairwise_")).
+Eval vm_compute in (report eon_program (one "SIR_compact_pairwise")).
+Eval vm_compute in (dead_report eon_program (one "SIR_compact_pairwise")).
+Eval vm_compute in (report eon_program (one "_dSIS_homogeneous_pairwise_")).
+Eval vm_compute in (dead_report eon_program (one "_dSIS_homogeneous_pairwise_")).
+Eval vm_compute in (report eon_program (one "SIS_super_compact_pairwise")).
+Eval vm_compute in (dead_report eon_program (one "SIS_super_compact_pairwise")).
+Eval vm_compute in (report eon_program (one "_dEBCM_")).
+Eval vm_compute in (dead_report eon_program (one "_dEBCM_")).
 Eval vm_compute in (report eon_program (one "_trans_and_rec_time_Markovian_const_trans_")).
 Eval vm_compute in (dead_report eon_program (one "_trans_and_rec_time_Markovian_const_trans_")).
 Eval vm_compute in (report eon_program (one "SIS_individual_based_pure_IC")).
 Eval vm_compute in (dead_report eon_program (one "SIS_individual_based_pure_IC")).
-Eval vm_compute in (report eon_program (one "estimate_SIR_prob_size_from_dir_perc")).
-Eval vm_compute in (dead_report eon_program (one "estimate_SIR_prob_size_from_dir_perc")).
-Eval vm_compute in (report eon_program (one "SIS_homogeneous_meanfield_from_graph")).
-Eval vm_compute in (dead_report eon_program (one "SIS_homogeneous_meanfield_from_graph")).
-Eval vm_compute in (report eon_program (one "_find_trans_and_rec_delays_SIR_")).
-Eval vm_compute in (dead_report eon_program (one "_find_trans_and_rec_delays_SIR_")).
-Eval vm_compute in (report eon_program (one "percolate_network")).
-Eval vm_compute in (dead_report eon_program (one "percolate_network")).
+Eval vm_compute in (report eon_program (one "estimate_R0")).
+Eval vm_compute in (dead_report eon_program (one "estimate_R0")).
+Eval vm_compute in (report eon_program (one "nonMarkov_directed_percolate_network")).
+Eval vm_compute in (dead_report eon_program (one "nonMarkov_directed_percolate_network")).
+Eval vm_compute in (report eon_program (one "SIS_heterogeneous_meanfield_from_graph")).
+Eval vm_compute in (dead_report eon_program (one "SIS_heterogeneous_meanfield_from_graph")).
+Eval vm_compute in (report eon_program (one "EBCM_pref_mix_from_graph")).
+Eval vm_compute in (dead_report eon_program (one "EBCM_pref_mix_from_graph")).
 Eval vm_compute in (report eon_program (one "percolation_based_discrete_SIR")).
 Eval vm_compute in (dead_report eon_program (one "percolation_based_discrete_SIR")).
 Eval vm_compute in (report eon_program (one "estimate_nonMarkov_SIR_prob_size_with_timing")).
